@@ -16,6 +16,11 @@ def total_interp(m, rng, p_over=0.25):
         for x in all_nodes(m):
             if not is_var(x) and rng.random() < 0.3:
                 d[x.id] = rng.choice([(0, 0), (1, 1), (0, 1)])
+    # a sub-proposition pre-fixed by its declaration and overridden by the interpretation (the override wins)
+    for x in all_nodes(m):
+        if not is_var(x) and x.bounds.lower == x.bounds.upper and rng.random() < 0.5:
+            v = 1 - int(x.bounds.lower)
+            d[x.id] = rng.choice([(v, v), (v, v), (0, 1)])
     return env, d
 
 def neg_nonzero(p, d, env):
@@ -55,7 +60,7 @@ def run(res, tier, seed):
     res.rule = RULE
     n_models = 350 if tier == "quick" else 4000
     per = 2 if tier == "quick" else 3
-    models = gen_valid(rng, n_models, res, constvar=0.08)
+    models = gen_valid(rng, n_models, res, constvar=0.15)
     cases = []
     for ast, m in models:
         res.count("depth_%d" % depth_of(m))
@@ -63,6 +68,8 @@ def run(res, tier, seed):
             env, d = total_interp(m, rng)
             if any(k in compound_ids(m) for k in d):
                 res.count("with_override")
+            if any((not is_var(x)) and x.bounds.lower == x.bounds.upper and x.id in d for x in all_nodes(m)):
+                res.count("prefixed_compound_overridden")
             if neg_nonzero(m, d, env):
                 res.nt(canon(m) + json.dumps(sorted(d.items()))); res.count("negative_node_nonzero_sum")
             bad = oracle_case(res, ast, d, env, rng)
